@@ -89,8 +89,19 @@ type sched struct {
 
 var theSched *sched
 
+// parkIDs: the yield points / seams this area schedules at. Other properties' yield points in
+// the same code paths are ignored.
+var parkIDs = map[string]bool{
+	"version.release.afterDec": true, "snapshot.close.afterRelease": true,
+	"familyVersion.appendVersion.enter": true, "familyVersion.appendVersion.afterSwap": true,
+	"family.deleteObsoleteFiles.afterPending": true, "family.deleteObsoleteFiles.afterActive": true,
+	"family.deleteObsoleteFiles.afterRollup": true,
+	"kv.listDir.after":                       true, "kv.removeDir.before": true, "kv.removeDir.after": true,
+	"compact.beforeRun": true, "table.newWriter.before": true, "merge.first": true, "flush.ready": true,
+}
+
 func hook(id string) {
-	if s := theSched; s != nil {
+	if s := theSched; s != nil && parkIDs[id] {
 		s.park(id)
 	}
 }
